@@ -126,7 +126,8 @@ func NewHarness(p Pop, seed bool) *Harness {
 	cfgs := map[configv1alpha1.ConfigName]runtime.Object{configv1alpha1.CronExecutionConfigName: p.cronConfig()}
 	b := mc.NewBase(cfgs, true)
 	h.Base = b
-	b.Clock.SetTime(h.T0)
+	// The population exists well before the controller starts.
+	b.Clock.SetTime(h.T0.Add(-10 * time.Second))
 	actor := "env"
 	if seed {
 		actor = "seed"
@@ -136,6 +137,7 @@ func NewHarness(p Pop, seed bool) *Harness {
 			panic(fmt.Sprintf("jobconfig %s rejected: %v", j.Name, err))
 		}
 	}
+	b.Clock.SetTime(h.T0)
 	b.Build = func(b *mc.Base) {
 		h.CronCtx = croncontroller.NewContext(b.Ctx)
 		h.Worker = croncontroller.NewCronWorker(h.CronCtx, recorder{h})
@@ -273,6 +275,31 @@ func (r *refJC) nextAfter(from time.Time, window time.Duration) (time.Time, bool
 	return time.Time{}, false
 }
 
+// trustedNext computes the next schedule time with the cron library itself
+// (used only beyond the brute-force window).
+func (r *refJC) trustedNext(from time.Time, window time.Duration) (time.Time, bool) {
+	if !r.enabled {
+		return time.Time{}, false
+	}
+	if !r.notBefore.IsZero() && from.Before(r.notBefore) {
+		from = r.notBefore.Add(-time.Nanosecond)
+	}
+	var best time.Time
+	for _, ex := range r.trusted {
+		n := ex.Next(from.In(r.loc))
+		if !n.IsZero() && (best.IsZero() || n.Before(best)) {
+			best = n
+		}
+	}
+	if best.IsZero() || best.After(from.Add(window)) {
+		return time.Time{}, false
+	}
+	if !r.notAfter.IsZero() && best.After(r.notAfter) {
+		return time.Time{}, false
+	}
+	return best, true
+}
+
 // Ref is the reference scheduler of a population.
 type Ref struct {
 	K   int
@@ -383,7 +410,12 @@ func (h *Harness) CheckHeap(r *Ref, window time.Duration) string {
 		return fmt.Sprintf("heap name index has %d entries, queue %d", len(d.Names), len(d.Queue))
 	}
 	for name, j := range r.JCs {
-		next, ok := j.nextAfter(j.cursor, window)
+		next, ok := j.nextAfter(j.cursor, 10*time.Minute)
+		if !ok {
+			// Beyond the brute-force window fall back to the trusted cron library,
+			// evaluated in the JobConfig's effective zone.
+			next, ok = j.trustedNext(j.cursor, window)
+		}
 		idx, present := d.Names["default/"+name]
 		switch {
 		case ok && !present:
